@@ -76,3 +76,70 @@ contract(
     domain=False,
     props=["C17"],
 )
+
+PRS = "nix_manipulator/parser.py"
+IMP = "nix_manipulator/expressions/import_expression.py"
+
+contract(
+    target=f"{PA}::source_path_context",
+    kind="function",
+    params={"path": Opt(Opaque)},
+    returns=NoneT,
+    domain=False,
+    props=[],
+    trusted=True,  # only used inlined (generator-based context manager); see parse_file
+)
+
+contract(
+    target=f"{PRS}::parse_file",
+    params={"path": Opaque},
+    returns=Ref("NixSourceCode"),
+    modifies=["*"],
+    externals={
+        "Path": External(returns=Opaque, params=["p"], ensures=["result == py_Path_of(p)"]),
+        "parse": External(returns=Ref("NixSourceCode"), params=["source_code", "source_path"], modifies=["*"], exsures={"ValueError": []}),
+    },
+    opaque_methods={"read_text": Str},
+    call_asserts={
+        # for the whole dynamic extent of parse() the context variable names the file being parsed,
+        # so every path literal created by from_cst records the file that contains it
+        "parse": ["ctx_value('nix_source_path') is path", "source_path is path"],
+    },
+    # and it is restored afterwards, on the normal and on the exceptional exit
+    ensures=["ctx_value('nix_source_path') is None"],
+    exsures={"ValueError": ["ctx_value('nix_source_path') is None"]},
+    domain=False,
+    props=["C17"],
+)
+
+contract(
+    target=f"{IMP}::Import._resolve_argument",
+    params={"self": Ref("Import")},
+    returns=Ref("NixExpression"),
+    ensures=["not isinstance(result, Parenthesis)", "heap_unchanged()"],
+    exsures={"TypeError": ["self.argument is None"]},
+    loops={0: Loop(invariant=["True"])},
+    domain=False,
+    props=["C17"],
+)
+
+contract(
+    target=f"{IMP}::Import._follow_import",
+    params={"self": Ref("Import")},
+    returns=Ref("NixSourceCode"),
+    modifies=["*"],
+    externals={
+        "argument.resolved_path": External(returns=Opaque, ensures=["result == resolved_path_of(argument)"],
+                                           exsures={"ValueError": []}, note="own contract: NixPath.resolved_path"),
+        "parse_file": External(returns=Ref("NixSourceCode"), params=["path"], modifies=["*"], ensures=["result is parsed_file(path)"],
+                               exsures={"ValueError": [], "OSError": []}, note="own contract: parse_file"),
+    },
+    call_asserts={
+        # the file that is parsed next is the one the (parenthesis-free) path literal resolves to - relative to
+        # the file that contains this import (NixPath.resolved_path), never to the working directory
+        "parse_file": ["isinstance(argument, NixPath)", "path == resolved_path_of(argument)"],
+    },
+    exsures={"TypeError": [], "ValueError": [], "OSError": []},
+    domain=False,
+    props=["C17"],
+)
